@@ -1,4 +1,5 @@
 """C12 — encrypted amounts: chunking theorem + correspondence, direct oracles on transfers."""
+import hashlib
 import json
 import time
 from . import common as c
@@ -282,6 +283,87 @@ def run(ctx):
     ctx.notes["statement_wiring"] = {"shapes": [[w["na"], w["ns"]] for w in wcases]}
 
     tick("wiring")
+
+    # ---- BabyStepGiantStep Serial/Deserial round trip (theorem bsgs_serial_roundtrip), sizes above the 2^16 preallocation cap
+    rc, out = c.run_bin(binp, ["bsgsser", ctx.seed, 1 if ctx.quick else 2], timeout=600)
+    sres = [json.loads(l) for l in out.splitlines() if l.startswith("{")]
+    tabs = [x for x in sres if x["k"] == "bsgsser"]
+    if rc != 0 or len(tabs) < 7:
+        ctx.violation({"layer": "harness run: c12 bsgsser", "rc": rc, "output": out[-800:]}, "bsgsser harness crashed", no_input=True)
+        return
+    for x in sres:
+        key = c.digest(["bsgsser", x]); seen.add(key); nontrivial.add(key)
+        if x["k"] == "bsgsser":
+            want_len = 8 + 48 + x["m"] * (48 + 8)
+            if x.get("deserial") != "ok" or not x.get("equal") or x["len"] != want_len or x.get("len_again") != want_len:
+                ctx.violation({"case": x, "expected_len": want_len, "theorem": "bsgs_serial_roundtrip"},
+                              "BabyStepGiantStep: deserial(serial(table)) != table for table size m=%s: %s" % (x["m"], json.dumps(x)))
+        elif x["k"] == "bsgsser_short" and x["accepted"]:
+            ctx.violation({"case": x}, "BabyStepGiantStep::deserial accepted a stream one byte short (m=%s)" % x["m"])
+        elif x["k"] == "bsgsser_dlog" and x["r"] != x["x"]:
+            ctx.violation({"case": x}, "discrete_log on a deserialised table of size %s: %s*h -> %s" % (x["m"], x["x"], x["r"]))
+    ctx.cov["evaluations"] += len(sres)
+    ctx.notes["bsgs_serial"] = {"table_sizes": [x["m"] for x in tabs], "dlog_on_restored": len([x for x in sres if x["k"] == "bsgsser_dlog"])}
+    tick("bsgsser")
+
+    # ---- first challenge of real transfers = sha3-256 of the model frame (transcript initialisation + EncTrans public + commit message)
+    rc, out = c.run_bin(binp, ["frames", ctx.seed, 0], timeout=600)
+    fr = [json.loads(l) for l in out.splitlines() if l.startswith("{")]
+    if rc != 0 or len(fr) < 4:
+        ctx.violation({"layer": "harness run: c12 frames", "rc": rc, "output": out[-800:]}, "frames harness crashed", no_input=True)
+        return
+    fex, ftok = [], []
+    for f in fr:
+        tok = {}
+        def t(hexpt, tok=tok):
+            if hexpt not in tok:
+                tok[hexpt] = len(tok) + 1
+            return tok[hexpt]
+        cm = f["cm"]
+        if cm is None or not f["verifies"]:
+            ctx.violation({"case": {k: f[k] for k in ("kind", "challenge", "verifies")}}, "honest %s did not verify / commit message not extractable" % f["kind"])
+            fex.append("[]%list"); ftok.append(tok); continue
+        b = bytes.fromhex(cm)
+        pos = [0]
+        def pt():
+            v = b[pos[0]:pos[0] + 48].hex(); pos[0] += 48; return t(v)
+        def vec():
+            n = int.from_bytes(b[pos[0]:pos[0] + 4], "big"); pos[0] += 4
+            return [(pt(), pt()) for _ in range(n)]
+        g, h, pks, pkr = t(f["g"]), t(f["h"]), t(f["pk_s"]), t(f["pk_r"])
+        S = (t(f["S"][0]), t(f["S"][1]))
+        A = [(t(x[0]), t(x[1])) for x in f["A"]]
+        Sp = [(t(x[0]), t(x[1])) for x in f["Sp"]]
+        d, e = pt(), pt()
+        m1, m2 = vec(), vec()
+        zp = lambda l: "[" + "; ".join("(%d%%Z, %d%%Z)" % p for p in l) + "]"
+        fex.append("frame_tokens %s %d%%Z %d%%Z %d%%Z %d%%Z (%d%%Z, %d%%Z) %s %s (%d%%Z, %d%%Z, %s, %s)" % (
+            "true" if f["kind"] == "sec2pub" else "false", g, h, pks, pkr, S[0], S[1], zp(A), zp(Sp), d, e, zp(m1), zp(m2)))
+        ftok.append(tok)
+    fterms = c.coq_eval(ctx, "frames", "From Coq Require Import ZArith List. Import ListNotations.\nFrom CB Require Import Crypto.EncTransferExec.", fex, shard=2)
+    fbad = 0
+    for f, tok, term in zip(fr, ftok, fterms):
+        inv = {v: k for k, v in tok.items()}
+        raw = bytearray()
+        for n in term:
+            if n == 2 ** 259:
+                raw += bytes.fromhex(f["gc"])
+            elif n >= 2 ** 260:
+                raw += bytes.fromhex(inv[n - 2 ** 260])
+            else:
+                raw.append(n)
+        key = c.digest(["frame", f["kind"], f["challenge"]]); seen.add(key); nontrivial.add(key)
+        if hashlib.sha3_256(bytes(raw)).hexdigest() != f["challenge"]:
+            fbad += 1
+            ctx.violation({"kind": f["kind"], "challenge": f["challenge"], "model_frame_len": len(raw), "pk_r": f["pk_r"], "pk_s": f["pk_s"],
+                           "layer": "transcript initialisation (domain, ctx, receiver_pk, sender_pk / pk as whole Serial values) + EncTrans public + commit message"},
+                          "%s: sha3-256 of the model frame differs from the challenge of the real proof - the implementation absorbs "
+                          "something else than the model's transcript (e.g. a key component instead of the whole public key)" % f["kind"])
+    ctx.cov["evaluations"] += len(fr)
+    ctx.cov["traces_validated_against_impl"] += len(fr)
+    ctx.notes["first_challenge_frames"] = {"proofs": len(fr), "mismatches": fbad}
+    tick("frames")
+
     # in-the-exponent correspondence for encrypt / aggregate / join / decrypt
     ne = 40 if ctx.quick else 1500
     rc, out = c.run_bin(binp, ["encgen", ctx.seed, ne], timeout=1200)
@@ -357,7 +439,7 @@ def run(ctx):
     # crafted-prover attacks (a proof no honest prover produces must be rejected as well)
     rc, out = c.run_bin(binp, ["attack", ctx.seed, 0], timeout=1200)
     atk = [json.loads(l) for l in out.splitlines() if l.startswith("{")]
-    if len(atk) < 4:
+    if len(atk) < 5:
         ctx.violation({"layer": "attack harness", "output": out[-1500:]}, "attack harness failed", no_input=True)
     for a in atk:
         res.append(a)
